@@ -22,6 +22,8 @@
 #include "interrogateType.h"
 #include "interrogateFunction.h"
 #include "cppFunctionType.h"
+#include "cppArrayType.h"
+#include "cppPointerType.h"
 
 using std::ostream;
 using std::string;
@@ -266,8 +268,14 @@ void InterfaceMakerPythonSimple::write_function_instance(ostream &out, Interface
 
     // This is the string to convert our local variable to the appropriate C++
     // type.  Normally this is just a cast.
+    CPPType *cast_type = type;
+    if (CPPArrayType *array_type = type->as_array_type()) {
+      // It's not possible to cast to an array type; cast to a pointer to its
+      // elements instead.
+      cast_type = CPPType::new_type(new CPPPointerType(array_type->_element_type));
+    }
     string pexpr_string =
-      "(" + type->get_local_name(&parser) + ")" + param_name;
+      "(" + cast_type->get_local_name(&parser) + ")" + param_name;
 
     if (remap->_parameters[pn]._remap->new_type_is_atomic_string()) {
       if (TypeManager::is_char_pointer(orig_type)) {
